@@ -63,6 +63,8 @@ pub struct Elab<'a> {
     pub env: Env,
     pub counters: BTreeMap<String, usize>,
     pub loop_ctr: usize,
+    pub cur_loop: usize,
+    pub used_loops: BTreeSet<usize>,
     pub brk_ctr: usize,
     pub used_keys: BTreeSet<String>,
     pub notes: Vec<String>,
@@ -992,6 +994,61 @@ impl<'a> Elab<'a> {
                 }
             }
         }
+        // `X.iter().map(|p| B).collect()` → the loop that std's adapters run: one push per element, in order
+        if method == "collect" && m.args.is_empty() {
+            if let Expr::MethodCall(mm) = peel_paren(&m.receiver) {
+                if mm.method == "map" && mm.args.len() == 1 {
+                    if let (Expr::Closure(cl), Expr::MethodCall(it)) = (&mm.args[0], peel_paren(&mm.receiver)) {
+                        if it.method == "iter" && it.args.is_empty() && cl.inputs.len() == 1 {
+                            let pat = match &cl.inputs[0] {
+                                Pat::Type(pt) => (*pt.pat).clone(),
+                                other => other.clone(),
+                            };
+                            let marker = self.loop_marker(format!("collect {}", expr_to_string(&it.receiver)));
+                            let idx = format_ident!("__k{}", self.cur_loop);
+                            let acc = format_ident!("__c{}", self.cur_loop);
+                            let recv = self.fold_expr((*it.receiver).clone());
+                            let saved = self.env.clone();
+                            let body = self.fold_expr((*cl.body).clone());
+                            self.env = saved;
+                            let pat = self.fold_pat(pat);
+                            let accty: Type = match self.spec.loops.get(&(self.cur_loop)).and_then(|l| l.collects.clone()) {
+                                Some(t) => syn::parse_str(&t).unwrap_or_else(|_| parse_quote!(Vec<_>)),
+                                None => parse_quote!(Vec<_>),
+                            };
+                            return parse_quote!({
+                                let mut #acc: #accty = Vec::new();
+                                let mut #idx: usize = 0;
+                                while #idx < #recv.len() {
+                                    #marker
+                                    let #pat = &#recv[#idx];
+                                    #acc.push(#body);
+                                    #idx += 1;
+                                }
+                                #acc
+                            });
+                        }
+                    }
+                }
+            }
+        }
+        // `X.map(|p| B)` in a unit that declares `optionmap` (every closure-`map` of the unit is on an Option)
+        if method == "map" && m.args.len() == 1 && self.u.optionmap {
+            if let Expr::Closure(cl) = &m.args[0] {
+                if cl.inputs.len() == 1 {
+                    let pat = match &cl.inputs[0] {
+                        Pat::Type(pt) => (*pt.pat).clone(),
+                        other => other.clone(),
+                    };
+                    let recv = self.fold_expr((*m.receiver).clone());
+                    let saved = self.env.clone();
+                    let body = self.fold_expr((*cl.body).clone());
+                    self.env = saved;
+                    let pat = self.fold_pat(pat);
+                    return parse_quote!(match #recv { Some(#pat) => Some(#body), None => None });
+                }
+            }
+        }
         if method == "unwrap_or_default" && m.args.is_empty() {
             let recv = self.fold_expr((*m.receiver).clone());
             return parse_quote!(match #recv { Some(__v) => __v, None => Default::default() });
@@ -1052,8 +1109,8 @@ impl<'a> Elab<'a> {
                         Pat::Type(pt) => (*pt.pat).clone(),
                         other => other.clone(),
                     };
-                    let marker = self.loop_marker();
-                    let idx = format_ident!("__k{}", self.loop_ctr - 1);
+                    let marker = self.loop_marker(format!("retain {}", expr_to_string(&m.receiver)));
+                    let idx = format_ident!("__k{}", self.cur_loop);
                     let recv = self.fold_expr((*m.receiver).clone());
                     let saved = self.env.clone();
                     let body = self.fold_expr((*cl.body).clone());
@@ -1267,6 +1324,9 @@ impl<'a> Elab<'a> {
         }
         let path = self.fold_path(s.path);
         let rest = s.rest.map(|r| Box::new(self.fold_expr(*r)));
+        if rest.is_some() && !fields.is_empty() && !fields.trailing_punct() {
+            fields.push_punct(Default::default());
+        }
         Expr::Struct(ExprStruct {
             attrs: vec![],
             qself: None,
@@ -1532,9 +1592,26 @@ impl<'a> Elab<'a> {
         Expr::Match(ExprMatch { attrs: vec![], match_token: m.match_token, expr: Box::new(scrut), brace_token: m.brace_token, arms })
     }
 
-    fn loop_marker(&mut self) -> Stmt {
-        let n = proc_macro2::Literal::u32_unsuffixed(self.loop_ctr as u32);
+    // The contract of a loop is found by the header text of the loop (`at`), else by its ordinal in the function; a loop
+    // without a contract gets an id beyond every contract's.
+    fn loop_marker(&mut self, header: String) -> Stmt {
+        let h: String = header.chars().filter(|c| !c.is_whitespace()).collect();
+        let ord = self.loop_ctr;
         self.loop_ctr += 1;
+        let by_text = self.spec.loops.iter().find(|(k, l)| l.at.as_deref() == Some(h.as_str()) && !self.used_loops.contains(*k)).map(|(k, _)| *k);
+        let id = match by_text {
+            Some(k) => k,
+            None => match self.spec.loops.get(&ord) {
+                Some(l) if l.at.is_none() && !self.used_loops.contains(&ord) => ord,
+                _ => 100 + ord,
+            },
+        };
+        self.used_loops.insert(id);
+        self.cur_loop = id;
+        if id >= 100 && !self.spec.loops.is_empty() {
+            self.notes.push(format!("loop `{}` has no contract", h));
+        }
+        let n = proc_macro2::Literal::u32_unsuffixed(id as u32);
         parse_quote!(__vx_loop!(#n);)
     }
 
@@ -1554,7 +1631,8 @@ impl<'a> Elab<'a> {
         if l.label.is_some() {
             self.unsupported("labelled loop", l.span());
         }
-        let marker = self.loop_marker();
+        let marker = self.loop_marker("loop".to_string());
+        let brkty: Option<Type> = self.spec.loops.get(&(self.cur_loop)).and_then(|l| l.collects.clone()).and_then(|t| syn::parse_str(&t).ok());
         let hoist = has_break_value(&l.body);
         let var = if hoist {
             let v = format_ident!("__brk{}", self.brk_ctr);
@@ -1569,7 +1647,11 @@ impl<'a> Elab<'a> {
         body.stmts.insert(0, marker);
         let lp = Expr::Loop(ExprLoop { attrs: vec![], label: None, loop_token: l.loop_token, body });
         match var {
-            Some(v) => parse_quote!({ let mut #v = None; #lp; #v.unwrap() }),
+            Some(v) => match brkty {
+                // `collects T` of the loop's overlay entry: the type of the hoisted break value (needed when an invariant names it)
+                Some(t) => parse_quote!({ let mut #v: Option<#t> = None; #lp; #v.unwrap() }),
+                None => parse_quote!({ let mut #v = None; #lp; #v.unwrap() }),
+            },
             None => lp,
         }
     }
@@ -1578,7 +1660,7 @@ impl<'a> Elab<'a> {
         if w.label.is_some() {
             self.unsupported("labelled loop", w.span());
         }
-        let marker = self.loop_marker();
+        let marker = self.loop_marker(format!("while {}", expr_to_string(&w.cond)));
         if let Expr::Let(_) = &*w.cond {
             self.unsupported("while let", w.span());
         }
@@ -1595,7 +1677,7 @@ impl<'a> Elab<'a> {
         if f.label.is_some() {
             self.unsupported("labelled loop", sp);
         }
-        let marker = self.loop_marker();
+        let marker = self.loop_marker(format!("for {} in {}", f.pat.to_token_stream(), expr_to_string(&f.expr)));
         let pat = (*f.pat).clone();
         let iter = peel_paren(&f.expr).clone();
         // `for PAT in X.drain(..)`  →  loop { match X.pop_front() { Some(PAT) => BODY, None => break } }
@@ -1624,8 +1706,8 @@ impl<'a> Elab<'a> {
             if let (Some(a), Some(b), RangeLimits::HalfOpen(_)) = (&r.start, &r.end, &r.limits) {
                 let a2 = self.fold_expr((**a).clone());
                 let b2 = self.fold_expr((**b).clone());
-                let idx = format_ident!("__i{}", self.loop_ctr - 1);
-                let end = format_ident!("__end{}", self.loop_ctr - 1);
+                let idx = format_ident!("__i{}", self.cur_loop);
+                let end = format_ident!("__end{}", self.cur_loop);
                 self.brk_stack.push(None);
                 let mut body = self.fold_loop_body(f.body);
                 self.brk_stack.pop();
@@ -1643,6 +1725,23 @@ impl<'a> Elab<'a> {
                 });
             }
         }
+        // `for mut x in X` over a local Vec taken by value  →  `while X.len() > 0 { let mut x = X.remove(0); .. }` (same order;
+        // the vector is consumed either way)
+        if let (Pat::Ident(pi), Expr::Path(pp)) = (&pat, &iter) {
+            if pi.mutability.is_some() && pi.by_ref.is_none() && pp.path.segments.len() == 1 {
+                let c2 = self.fold_expr(iter.clone());
+                self.brk_stack.push(None);
+                let mut body = self.fold_loop_body(f.body);
+                self.brk_stack.pop();
+                let pat2 = self.fold_pat(pat);
+                let mut stmts: Vec<Stmt> = vec![marker, parse_quote!(let #pat2 = #c2.remove(0);)];
+                stmts.append(&mut body.stmts);
+                let body = block_of(stmts);
+                return parse_quote!({
+                    while #c2.len() > 0 #body
+                });
+            }
+        }
         // `for PAT in &X` / `X.iter()`  →  indexed while
         let coll: Option<Expr> = match &iter {
             Expr::Reference(r) if r.mutability.is_none() => Some((*r.expr).clone()),
@@ -1653,7 +1752,7 @@ impl<'a> Elab<'a> {
         };
         if let Some(c) = coll {
             let c2 = self.fold_expr(c);
-            let idx = format_ident!("__i{}", self.loop_ctr - 1);
+            let idx = format_ident!("__i{}", self.cur_loop);
             self.brk_stack.push(None);
             let mut body = self.fold_loop_body(f.body);
             self.brk_stack.pop();
@@ -1744,7 +1843,18 @@ impl<'a> Elab<'a> {
             // the text of a formatted message is opaque
             return parse_quote!(vx_format());
         }
-        if name == "format" || name == "vec" || name == "unreachable" || name == "panic" {
+        if name == "vec" {
+            // `vec![a, b, ..]` (list form): the elements are folded like any other expression; vstd gives `vec!` its meaning
+            let parser = syn::punctuated::Punctuated::<Expr, Token![,]>::parse_terminated;
+            match syn::parse::Parser::parse2(parser, m.mac.tokens.clone()) {
+                Ok(elems) => {
+                    let elems: Vec<Expr> = elems.into_iter().map(|e| self.fold_expr(e)).collect();
+                    return parse_quote!(vec![#(#elems),*]);
+                }
+                Err(_) => self.unsupported("vec! in repeat form", m.span()),
+            }
+        }
+        if name == "format" || name == "unreachable" || name == "panic" {
             self.unsupported(&format!("macro {}!", name), m.span());
         }
         Expr::Macro(m)
